@@ -106,6 +106,10 @@ def parse_kani_output(out):
                 cur_of_thread[th] = full
                 cur = None
             continue
+        sm = re.match(r"Thread (\d+):\s+(- Stub: .*)$", ln)
+        if sm and sm.group(1) in cur_of_thread:
+            blocks[cur_of_thread[sm.group(1)]].append("  " + sm.group(2))
+            continue
         tm = re.match(r"Thread (\d+): ?$", ln)
         if tm and tm.group(1) in cur_of_thread:
             cur = cur_of_thread[tm.group(1)]
